@@ -186,6 +186,7 @@ func (f *Feed) Send(value interface{}) (nsent int) {
 			}
 		} else {
 			verifPoint(f, "select_sent", cases[chosen].Chan)
+			verifPoint(f, "select_index", reflect.ValueOf(chosen))
 			cases = cases.deactivate(chosen)
 			nsent++
 		}
